@@ -12,7 +12,7 @@ LEVEL = 'exploration'
 CASES_ARE_COUNTED = True
 TIERS = {'quick': {'runs': 16000, 'budget_s': 45}, 'thorough': {'runs': 1200000, 'budget_s': 900}}
 RULE = ('one run = one seeded interleaving (<= 30 events) on one engine of up to 3 simultaneously suspended enumerations (query or retract over '
-        'p/1, c/1, p/2; ground facts, in 30% of the runs also facts with variables; 8% of the runs start with 60-150 facts on one predicate; ground, partial and variable patterns) with mutations of the same predicates between any two of their '
+        'p/1, c/1, p/2, tok/0; ground facts, in 30% of the runs also facts with variables; 8% of the runs start with 60-150 facts on one predicate; ground, partial and variable patterns) with mutations of the same predicates between any two of their '
         'steps (asserta, assertz, retract-first-then-close, retractall, clear, and the compiled idioms drain = "p(X), retract(p(X)), fail" and '
         'upd = "retract(c(N)), assertz(c(s(N))), fail" under a line budget); half of the mutations are aimed at the record just visited or about '
         'to be visited by a suspended enumeration. A case = one event compared with the snapshot model + read-back of all predicates; '
@@ -29,7 +29,7 @@ COMPONENTS = {'real': ['yldprolog.engine fact store, match_dynamic, retract/retr
 REQUIRED_PROBES = ('fault_assert_overflow', 'fault_retractall_overflow', 'deep_fact_stored', 'guarded_scan_started', 'step_in_large_enumeration', 'nonground_fact_answered', 'step_after_mutation', 'mutation_under_suspended_enum', 'mutation_adjacent_to_cursor', 'retract_enum_skipped_removed',
                    'query_enum_visited_removed', 'two_enums_same_predicate', 'idiom_drain', 'idiom_upd', 'clear_under_suspended_enum')
 
-KEYS = [('p', 1), ('c', 1), ('p', 2)]
+KEYS = [('p', 1), ('c', 1), ('p', 2), ('tok', 0)]
 VALS = [['a', 'a'], ['a', 'b'], ['a', 'c'], ['a', 'd']]
 NONGROUND = [['v', 0], ['f', 'f', [['v', 0]]], ['f', 'g', [['a', 'a'], ['v', 0]]], ['f', 'f', [['a', 'b']]]]
 IDIOM_LINE_BUDGET = 20000
@@ -166,7 +166,7 @@ class ModelSim:
 
 def deep_row(key):
     from ..machine import deep_model_term
-    return [deep_model_term('list', 100)] + [('a', 'a')] * (key[1] - 1)
+    return ([deep_model_term('list', 100)] + [('a', 'a')] * (key[1] - 1)) if key[1] else []
 
 
 def is_deep(row):
@@ -181,7 +181,7 @@ def gen(seed, tier):
     rng = random.Random(seed)
     m = ModelSim()
     ops = []
-    keys = rng.choice(([0], [0], [1], [0, 1], [2], [0, 1, 2]))
+    keys = rng.choice(([0], [0], [1], [0, 1], [2], [0, 1, 2], [3], [0, 3]))
     nvals = rng.choice((2, 3, 4))
     p_idiom = rng.choice((0.0, 0.03, 0.08))
     nonground = rng.random() < 0.3
@@ -302,7 +302,7 @@ def gen(seed, tier):
 
 def show_goal(ki, pat):
     name, ar = KEYS[ki]
-    return '%s(%s)' % (name, ','.join(TM.show(TM.T(t)) for t in pat[:ar]))
+    return '%s(%s)' % (name, ','.join(TM.show(TM.T(t)) for t in pat[:ar])) if ar else name
 
 
 def show_op(op):
@@ -401,7 +401,7 @@ def execute(plan):
                 if under:
                     log.count('mutation_under_suspended_enum')
                     log.key(('assert', front, tuple(row), tuple((x['e']['kind'], x['e']['pos'], len(x['e']['snap'])) for x in under), tuple(m.store.rows(key)[:40])))
-                term = yp.functor(key[0], [TM.build(yp, TM.T(t), {}) for t in row])
+                term = yp.functor(key[0], [TM.build(yp, TM.T(t), {}) for t in row]) if key[1] else yp.atom(key[0])
                 n = sum(1 for _ in yp.query('asserta' if front else 'assertz', [term]))
                 m.add(key, [TM.T(t) for t in row], front)
                 log.ev('assert', front, ki, n)
@@ -419,7 +419,7 @@ def execute(plan):
                 pargs = [TM.build(yp, t, vmap) for t in pat]
                 if k2 == 'g':
                     log.count('guarded_scan_started')
-                g = (yp.query(key[0], pargs) if k2 == 'q' else yp.query('gscan', pargs) if k2 == 'g' else yp.query('retract', [yp.functor(key[0], pargs)]))
+                g = (yp.query(key[0], pargs) if k2 == 'q' else yp.query('gscan', pargs) if k2 == 'g' else yp.query('retract', [yp.functor(key[0], pargs) if key[1] else yp.atom(key[0])]))
                 entry = {'e': m.start(k2, key, pat), 'task': GenTask(g), 'pargs': pargs, 'steps': 0}
                 live.append(entry)
                 if not do_step(entry, 'start'):
@@ -480,7 +480,7 @@ def execute(plan):
                     pargs = [TM.build(yp, t, vmap) for t in pat]
                     with LowRecursionLimit(60):
                         try:
-                            g_ = yp.query('retractall', [yp.functor(key[0], pargs)]) if what == 'retractall' else yp.query(key[0], pargs)
+                            g_ = yp.query('retractall', [yp.functor(key[0], pargs) if key[1] else yp.atom(key[0])]) if what == 'retractall' else yp.query(key[0], pargs)
                             n_ = 0
                             for _ in g_:
                                 n_ += 1
@@ -493,7 +493,7 @@ def execute(plan):
                         m.retractall(key, pat)
                 log.count('fault_%s_%s' % (what, 'overflow' if raised else 'completed'))
                 log.ev('faultop', what, ki, raised)
-                log.key(('faultop', what, raised, len(under), tuple(TM.size(r[0]) > 60 for r in m.store.rows(key))))
+                log.key(('faultop', what, raised, len(under), tuple(is_deep(r) for r in m.store.rows(key))))
             elif kind == 'bulk':
                 _, ki, n, nv_ = op
                 key = KEYS[ki]
@@ -524,7 +524,7 @@ def execute(plan):
                     log.key((kind, tuple(pat), tuple((x['e']['kind'], x['e']['pos'], len(x['e']['snap'])) for x in under), tuple(m.store.rows(key)[:40])))
                 vmap = {}
                 pargs = [TM.build(yp, t, vmap) for t in pat]
-                term = yp.functor(key[0], pargs)
+                term = yp.functor(key[0], pargs) if key[1] else yp.atom(key[0])
                 if kind == 'retract1':
                     t = GenTask(yp.query('retract', [term]))
                     ok = t.step()
